@@ -81,6 +81,8 @@ pub fn stake_history(out: &mut crate::Out, tag: &str, seed: u64, net: NetID, sta
     // stake documents over all orderings of (current epoch, start, end) and the other defects
     let cases: Vec<(i64, i64, u128, u32)> = vec![
         (1, 2, 0, 9), (1, 2, 0, 0), (1, 3, 0, 0), (2, 3, 0, 0), (0, 2, 0, 0), (1, 1, 0, 0), (2, 1, 0, 0), (-1, 2, 0, 0), (1, 2, 1, 0), (1, 2, 0, 1), (1, 2, 0, 2), (1, 4, 0, 0),
+        // ends at the largest representable epoch and just below it (modes 10, 11); starts there too (mode 12)
+        (1, 0, 0, 10), (1, 0, 0, 11), (0, 0, 0, 12),
     ];
     for (ci, (ds, de, diff, mode)) in cases.iter().enumerate() {
         let sp = d.spendable();
@@ -89,7 +91,8 @@ pub fn stake_history(out: &mut crate::Out, tag: &str, seed: u64, net: NetID, sta
         let (Some(sym), Some(fee)) = (sym.cloned(), fee.cloned()) else { break };
         let amount = if *mode == 9 { 0 } else { sym.1.coin_data.value.0 / 2 };   // mode 9: a stake of zero SYM (declared 0)
         let start = (epoch0 as i64 + ds).max(0) as u64;
-        let end = (epoch0 as i64 + de).max(0) as u64;
+        let end = match *mode { 10 | 12 => u64::MAX, 11 => u64::MAX - 1, _ => (epoch0 as i64 + de).max(0) as u64 };
+        let start = if *mode == 12 { u64::MAX - 1 } else { start };
         if let Some(t) = stake_tx(&mut d, &sym, &fee, amount, amount + diff, start, end, ci % 4, *mode) {
             let ok = d.apply(&[t.clone()], 0, json!({"why": format!("stake start {} end {} (current epoch {}) declared-diff {} mode {}", start, end, epoch0, diff, mode)}));
             if ok {
